@@ -48,7 +48,8 @@ def main(argv):
     try:
         mod.run(ctx)
     except Exception as ex:  # harness failure: inconclusive, never green
-        ctx.unsure("harness exception in shard %s: %s" % (shard, core.format_exc(ex)[-600:]))
+        sys.stderr.write(core.format_exc(ex))
+        ctx.unsure("harness exception: %s" % " | ".join(core.format_exc(ex).strip().splitlines()[-3:])[:400])
     core.write_shard_result(ctx, out_prefix)
     faulthandler.cancel_dump_traceback_later()
     sys.stdout.flush()
